@@ -137,3 +137,27 @@ def loc(body, bb=None):
 
 def shortfn(x):
     return x.split("::", 1)[-1] if x else x
+
+
+_NEG = {"Lt": "Ge", "Le": "Gt", "Gt": "Le", "Ge": "Lt", "Eq": "Ne", "Ne": "Eq"}
+_SWAP = {"Lt": "Gt", "Le": "Ge", "Gt": "Lt", "Ge": "Le", "Eq": "Eq", "Ne": "Ne"}
+
+
+def rel_of_term(term, truth=True):
+    """normalise a boolean origin term built from a comparison into [(op, lhs, rhs)] (both orientations);
+    op in Lt/Le/Gt/Ge/Eq/Ne means `lhs op rhs` holds"""
+    while isinstance(term, tuple) and term and term[0] == "un" and term[1] == "Not":
+        term, truth = term[2], not truth
+    if not (isinstance(term, tuple) and term and term[0] == "bin" and term[1] in _NEG):
+        return []
+    op = term[1] if truth else _NEG[term[1]]
+    return [(op, term[2], term[3]), (_SWAP[op], term[3], term[2])]
+
+
+def relations(ctx, body, bb):
+    """comparison facts known to hold at bb, normalised"""
+    out = []
+    for f in facts_at(ctx, body, bb):
+        if f[0] == "truth":
+            out.extend(rel_of_term(f[1], f[2]))
+    return out
